@@ -57,6 +57,8 @@ struct Elem {
     ops: Vec<usize>,
     /// children (elements inserted after this one), kept sorted by descending id
     children: Vec<Id>,
+    /// the element this one was inserted after (None = head)
+    parent: Option<Id>,
 }
 
 #[derive(Debug)]
@@ -65,6 +67,15 @@ struct RObj {
     map: BTreeMap<String, Vec<usize>>,
     elems: HashMap<Id, Elem>,
     head_children: Vec<Id>,
+}
+
+#[derive(Clone, Debug)]
+pub struct SeqElem {
+    pub id: String,
+    pub parent: Option<String>,
+    pub visible: bool,
+    pub width: usize,
+    pub is_mark: bool,
 }
 
 pub struct Ref {
@@ -232,7 +243,11 @@ impl Ref {
                             },
                         };
                         sibling = had;
-                        obj.elems.insert(id.clone(), Elem { ops: vec![idx], children: vec![] });
+                        let parent = match e {
+                            ElementId::Head => None,
+                            ElementId::Id(p) => Some(lid(p)),
+                        };
+                        obj.elems.insert(id.clone(), Elem { ops: vec![idx], children: vec![], parent });
                     } else {
                         match e {
                             ElementId::Head => errs.push(format!("non-insert op {} on HEAD", id_str(&id))),
@@ -407,9 +422,41 @@ impl Ref {
         J::Object(m)
     }
 
+    /// the full sequence of an object in RGA order, tombstones included
+    pub fn seq_layout(&self, obj_id: &str) -> Option<Vec<SeqElem>> {
+        let key = self.objs.keys().find(|k| k.as_ref().map(id_str).as_deref() == Some(obj_id))?.clone();
+        let obj = self.objs.get(&key)?;
+        let is_text = obj.typ == ObjType::Text;
+        let mut out = vec![];
+        for e in self.order(obj) {
+            let el = &obj.elems[&e];
+            let first = el.ops[0];
+            let is_mark = matches!(self.ops[first].kind, Kind::MarkBegin { .. } | Kind::MarkEnd);
+            let vis = if is_mark { vec![] } else { self.visible(&el.ops) };
+            let width = if vis.is_empty() {
+                0
+            } else if is_text {
+                let piece = match &self.ops[*vis.last().unwrap()].kind {
+                    Kind::Put(ScalarValue::Str(s)) => s.to_string(),
+                    _ => "\u{fffc}".to_string(),
+                };
+                enc_width(self.enc, &piece)
+            } else {
+                1
+            };
+            out.push(SeqElem { id: id_str(&e), parent: el.parent.as_ref().map(id_str), visible: !vis.is_empty(), width, is_mark });
+        }
+        Some(out)
+    }
+
     pub fn snapshot(&mut self) -> J {
         self.object(None, ObjType::Map, 0)
     }
+}
+
+pub fn build_ref(changes: &[automerge::Change], enc: TextEncoding) -> Ref {
+    let ex: Vec<ExpandedChange> = changes.iter().map(|c| c.decode()).collect();
+    Ref::build(&ex, enc)
 }
 
 /// REF over a set of changes
